@@ -364,33 +364,39 @@ func checkC17(c *Check) {
 	// ---- R4 port preserved, host from the sniffed bytes only
 	const r4 = "C17.R4 every store to *reqAddr is net.JoinHostPort(host, port) with port from SplitHostPort(*reqAddr) and host from req.Host / ClientHello.ServerName, behind the corresponding non-empty test"
 	nStore := 0
-	for _, fn := range []*ssa.Function{sniffTCP, sniffUDP} {
-		var reqAddr *ssa.Parameter
-		for _, prm := range fn.Params {
-			if pt, ok := prm.Type().(*types.Pointer); ok {
-				if b, ok := pt.Elem().Underlying().(*types.Basic); ok && b.Kind() == types.String {
-					reqAddr = prm
-				}
-			}
-		}
-		if reqAddr == nil {
-			c.Unres("*string parameter of " + fnName(fn))
-			continue
-		}
-		for _, ref := range *reqAddr.Referrers() {
+	// visit(top, fn, addr, site): the stores to *addr inside fn, where fn is top itself (site == nil) or a
+	// helper that top calls at `site` with the request address pointer as an argument
+	var visit func(top, fn *ssa.Function, addr ssa.Value, site ssa.CallInstruction, depth int)
+	visit = func(top, fn *ssa.Function, addr ssa.Value, site ssa.CallInstruction, depth int) {
+		for _, ref := range *addr.Referrers() {
 			st, ok := ref.(*ssa.Store)
-			if !ok || st.Addr != ssa.Value(reqAddr) {
+			if !ok || st.Addr != addr {
 				if _, isLoad := ref.(*ssa.UnOp); isLoad {
 					continue
 				}
 				if _, isDbg := ref.(*ssa.DebugRef); isDbg {
 					continue
 				}
-				c.Bad("C17.R4:reqAddr-escapes:"+fnName(fn), r4, p.InstrPos(ref), "the request address pointer is passed on or aliased")
+				// handed to a helper of the package that does the rewriting: follow it
+				if ci, isCall := ref.(ssa.CallInstruction); isCall && depth < 2 {
+					if cal := staticCallee(ci); cal != nil && p.IsRepoFn(cal) && len(cal.Blocks) > 0 && fnPkg(cal) == fnPkg(top) {
+						idx, n := -1, 0
+						for i, a := range ci.Common().Args {
+							if a == addr {
+								idx, n = i, n+1
+							}
+						}
+						if n == 1 && idx < len(cal.Params) {
+							visit(top, cal, cal.Params[idx], ci, depth+1)
+							continue
+						}
+					}
+				}
+				c.Bad("C17.R4:reqAddr-escapes:"+fnName(top), r4, p.InstrPos(ref), "the request address pointer is passed on or aliased")
 				continue
 			}
 			nStore++
-			key := "C17.R4:store:" + fnName(fn)
+			key := "C17.R4:store:" + fnName(top)
 			call, ok := resolve(st.Val).(*ssa.Call)
 			if !ok || !calleeIs(call, "net", "JoinHostPort") {
 				c.Bad(key+":join", r4, p.InstrPos(st), "the new address is not net.JoinHostPort(host, port)")
@@ -400,23 +406,36 @@ func checkC17(c *Check) {
 			portOK := false
 			if tup, idx := tupleSource(call.Call.Args[1]); tup != nil && idx == 1 {
 				if sc, ok := tup.(*ssa.Call); ok && calleeIs(sc, "net", "SplitHostPort") {
-					if u, ok := resolve(sc.Call.Args[0]).(*ssa.UnOp); ok && u.Op == token.MUL && u.X == ssa.Value(reqAddr) {
+					if u, ok := resolve(sc.Call.Args[0]).(*ssa.UnOp); ok && u.Op == token.MUL && u.X == addr {
 						portOK = true
 					}
 				}
 			}
-			// host
+			// host: through the helper's parameters back to the caller's values
 			var hostField *ssa.UnOp
-			for d := range deps(call.Call.Args[0], depOpts{throughCalls: true}) {
-				if u, ok := d.(*ssa.UnOp); ok && u.Op == token.MUL {
-					if fa, ok := u.X.(*ssa.FieldAddr); ok {
-						f := structField(fa.X.Type(), fa.Field)
-						if f != nil && (f.Name() == "Host" || f.Name() == "ServerName") && f.Pkg() != nil && !isRepoPath(f.Pkg().Path()) {
-							hostField = u
+			var scan func(v ssa.Value, f *ssa.Function, at ssa.CallInstruction)
+			scan = func(v ssa.Value, f *ssa.Function, at ssa.CallInstruction) {
+				for d := range deps(v, depOpts{throughCalls: true}) {
+					if u, ok := d.(*ssa.UnOp); ok && u.Op == token.MUL {
+						if fa, ok := u.X.(*ssa.FieldAddr); ok {
+							fl := structField(fa.X.Type(), fa.Field)
+							if fl != nil && (fl.Name() == "Host" || fl.Name() == "ServerName") && fl.Pkg() != nil && !isRepoPath(fl.Pkg().Path()) {
+								hostField = u
+							}
+						}
+					}
+					if prm, ok := d.(*ssa.Parameter); ok && at != nil && prm.Parent() == f {
+						for i, q := range f.Params {
+							if q == prm {
+								if arg := c03ArgAt(at, i); arg != nil {
+									scan(arg, at.Parent(), nil)
+								}
+							}
 						}
 					}
 				}
 			}
+			scan(call.Call.Args[0], fn, site)
 			src := "?"
 			if hostField != nil {
 				src = structField(hostField.X.(*ssa.FieldAddr).X.Type(), hostField.X.(*ssa.FieldAddr).Field).Name()
@@ -426,7 +445,6 @@ func checkC17(c *Check) {
 			if !c.Req(hostField != nil, key+":host", r4, p.InstrPos(st), "the host does not derive from req.Host / ClientHello.ServerName") {
 				continue
 			}
-			// no other input may flow into the host: check that the only non-constant leaves are that field (and its error-fallback)
 			fa := hostField.X.(*ssa.FieldAddr)
 			nonEmpty := func(cond ssa.Value, pol bool) bool {
 				b, ok := cond.(*ssa.BinOp)
@@ -447,8 +465,27 @@ func checkC17(c *Check) {
 				}
 				return (b.Op == token.NEQ && pol) || (b.Op == token.EQL && !pol)
 			}
-			c.Req(guardedBy(st, nonEmpty), key+":non-empty", r4, p.InstrPos(st), "the address is rewritten even when the sniffed name is empty")
+			guarded := guardedBy(st, nonEmpty)
+			if !guarded && site != nil {
+				guarded = guardedBy(site, nonEmpty)
+			}
+			c.Req(guarded, key+":non-empty", r4, p.InstrPos(st), "the address is rewritten even when the sniffed name is empty")
 		}
+	}
+	for _, fn := range []*ssa.Function{sniffTCP, sniffUDP} {
+		var reqAddr *ssa.Parameter
+		for _, prm := range fn.Params {
+			if pt, ok := prm.Type().(*types.Pointer); ok {
+				if b, ok := pt.Elem().Underlying().(*types.Basic); ok && b.Kind() == types.String {
+					reqAddr = prm
+				}
+			}
+		}
+		if reqAddr == nil {
+			c.Unres("*string parameter of " + fnName(fn))
+			continue
+		}
+		visit(fn, fn, reqAddr, nil, 0)
 	}
 	c.Floor("C17.R4:store", nStore, 3)
 	_ = strings.Join
